@@ -15,13 +15,13 @@ import (
 func init() {
 	register(&PropDef{
 		ID: "C09", Level: "fault_enumeration", Quick: 12500, Thorough: 250000, QuickCap: 100,
-		Rule: "two sub-workloads. restart: a sequential program (uploads by every protocol, patches, deletes, compose, copy, bucket creation) on the file store with a new emulator instance on the same directory after EVERY request (a kill between requests; pending resumable uploads die), comparing every bucket, object, content, metadata, generation and metageneration through HTTP with what was acknowledged; content files without a metadata sidecar are planted into the directory and must be served, then patched, copied and deleted like any object, the outcome surviving another restart. differential: one tape of pre-drawn operation records executed against a memory-store world and a file-store world (names representable as files); normalised response traces (status, metadata with generations replaced by their rank of first appearance, body hashes, listings) must be identical; distinct = hash of (sub-workload, shapes); non-trivial = at least 3 requests",
+		Rule: "two sub-workloads. restart: a sequential program (uploads by every protocol, patches, deletes, compose, copy, bucket creation) on the file store with a new emulator instance on the same directory after EVERY request (a kill between requests; pending resumable uploads die), comparing every bucket, object, content, metadata, generation and metageneration through HTTP with what was acknowledged; content files without a metadata sidecar are planted into the directory and must be served, then patched, copied and deleted like any object, the outcome surviving another restart. differential: one tape of pre-drawn operation records executed against a memory-store world and a file-store world (names representable as files); normalised response traces (status, metadata with generations replaced by their rank of first appearance, body hashes, listings) must be identical; every third differential run adds the memory store behind a real net/http server on a loopback socket, whose trace must equal the recorder stub's (transport fidelity); distinct = hash of (sub-workload, shapes); non-trivial = at least 3 requests",
 		Real: []string{"gcsemu filestore (Add: content, forced mtime, sidecar; UpdateMeta; Delete; ReadMeta; Walk), memstore, all handlers"},
 		Stub: []string{"process kill between requests = the GcsEmu value is dropped and rebuilt with NewFileStore(sameDir)", "wall clock (simulator-owned)"},
 		Assume: []string{"a kill between requests (the property's wording), not inside one", "timestamps and concrete generation numbers are not compared across stores"},
 		Run: runC09,
 	})
-	expectedProbes["C09"] = []string{"gcs.restart", "c09.planted_file_served", "c09.planted_file_patched_copied_deleted", "c09.differential_equal", "c09.differential_listing"}
+	expectedProbes["C09"] = []string{"gcs.restart", "c09.planted_file_served", "c09.planted_file_patched_copied_deleted", "c09.differential_equal", "c09.differential_listing", "c09.real_http_transport"}
 }
 
 func c09Gen(r *Run, g *gGen) func(d *draws, m *gModel, i int) gOp {
@@ -194,15 +194,26 @@ func c09Differential(r *Run, cfg *Stream) {
 	for i := 0; i < nOps; i++ {
 		recs = append(recs, record(ps, 96).v)
 	}
-	var traces [2][]string
+	// every third differential run adds a third world: the memory store behind a real net/http
+	// server on a loopback socket (transport fidelity of the recorder stub)
+	worlds := []string{"mem", "file"}
+	if r.Index%3 == 0 {
+		worlds = append(worlds, "mem-http")
+		r.Probe("c09.real_http_transport")
+	}
+	traces := make([][]string, len(worlds))
 	var shapes []string
-	for wi, store := range []string{"mem", "file"} {
+	for wi, store := range worlds {
 		clk := NewClock(0, 1_700_000_000_000_000_000)
 		clk.WallTick = func() int64 { return 1_000_000 }
 		g := &gGen{store: "file"} // same name universe and generator state for both
 		ranks := &genRanks{}
 		wi := wi
-		spec := gSeqSpec{Store: store, NOps: nOps, Records: recs, Gen: c09Gen(r, g),
+		overHTTP := store == "mem-http"
+		if overHTTP {
+			store = "mem"
+		}
+		spec := gSeqSpec{Store: store, NOps: nOps, Records: recs, Gen: c09Gen(r, g), OverHTTP: overHTTP,
 			After: func(op gOp, resp gResp, m *gModel, w *GCSWorld) bool {
 				line := fmt.Sprintf("%s -> %d %s", op.Kind, resp.Status, ranks.meta(resp.Meta))
 				if op.Kind == "Media" {
@@ -231,22 +242,28 @@ func c09Differential(r *Run, cfg *Stream) {
 	r.Mix("diff")
 	r.nontrivial = len(shapes) >= 3
 	r.Sample = map[string]interface{}{"mode": "differential", "requests": len(shapes), "first_ops": firstN(shapes, 10)}
-	n := len(traces[0])
-	if len(traces[1]) < n {
-		n = len(traces[1])
-	}
-	for i := 0; i < n; i++ {
-		if traces[0][i] != traces[1][i] {
-			r.Fail("stores-differ", "", "memory and file store answer differently at response %d of the same program:\n  mem:  %s\n  file: %s\n  ops: %v", i, traces[0][i], traces[1][i], firstN(shapes, i/2+1))
+	for wj := 1; wj < len(worlds); wj++ {
+		n := len(traces[0])
+		if len(traces[wj]) < n {
+			n = len(traces[wj])
+		}
+		kind, what := "stores-differ", "memory and file store answer"
+		if worlds[wj] == "mem-http" {
+			kind, what = "transport-differs", "the recorder stub and a real HTTP server (same store) answer"
+		}
+		for i := 0; i < n; i++ {
+			if traces[0][i] != traces[wj][i] {
+				r.Fail(kind, "", "%s differently at response %d of the same program:\n  %s:  %s\n  %s: %s\n  ops: %v", what, i, worlds[0], traces[0][i], worlds[wj], traces[wj][i], firstN(shapes, i/2+1))
+				return
+			}
+			if strings.HasPrefix(traces[0][i], "list") {
+				r.Probe("c09.differential_listing")
+			}
+		}
+		if len(traces[0]) != len(traces[wj]) {
+			r.Fail(kind, "", "traces have different lengths: %d vs %d", len(traces[0]), len(traces[wj]))
 			return
 		}
-		if strings.HasPrefix(traces[0][i], "list") {
-			r.Probe("c09.differential_listing")
-		}
-	}
-	if len(traces[0]) != len(traces[1]) {
-		r.Fail("stores-differ", "", "traces have different lengths: %d vs %d", len(traces[0]), len(traces[1]))
-		return
 	}
 	r.Probe("c09.differential_equal")
 }
